@@ -1,11 +1,14 @@
 (* Properties_C16.v -- statements only.  C16 (PARTIAL, see DESIGN.md section 5/C16):
    proved here: the row container has finite-map semantics, so the matrix the solver
    factorises does not depend on the storage order inside a row nor on explicitly stored zeros.
-   NOT proved: (I+L)U = A and A (solve b) = b for the row-by-row hashed elimination; that part
-   is covered by the exact-rational correspondence (K-solve) only.
+   Proved as well (SparseLUElim.v): every elimination step is the dense row operation in ANY arithmetic (fill-in is
+   created on demand, storage order irrelevant), and with non-vanishing pivots the stored factors satisfy
+   A = (I + L) U row by row, for every matrix size (exact arithmetic).
+   NOT proved: exactness of the forward / backward substitution loops (A (solve b) = b); covered by the exact-rational
+   correspondence (K-solve) only.
    (* FULL: forall A b, pivots_nonzero A -> csr_apply A (lu_solve (lu_factor A) b) = b *) *)
-From Coq Require Import List ZArith Bool Permutation.
-From GMGP Require Import Scalar SparseLUDefs SparseLUProofs.
+From Coq Require Import List ZArith Bool Permutation Reals.
+From GMGP Require Import Scalar ScalarR SparseLUDefs SparseLUProofs SparseLUElim.
 Import ListNotations.
 
 Theorem C16_row_map_overwrite : forall (S : Sc) j (v : S) r, get0 j (set_entry j v r) = v.
@@ -23,3 +26,30 @@ Proof. exact @stored_zero_irrelevant. Qed.
 
 Print Assumptions C16_storage_order_irrelevant_partial.
 Print Assumptions C16_stored_zero_irrelevant_partial.
+
+(* ---- the factorisation ---- *)
+(* one elimination step = the dense row operation, entry by entry, in ANY arithmetic (so also for doubles), whatever is stored *)
+Theorem C16_elimination_step_is_row_operation : forall (S : Sc) j (Uj r : @row S), NoDup (map fst Uj) ->
+  forall k, get0 k (elim_step j Uj r) =
+    match lookup j r with
+    | None => get0 k r
+    | Some a =>
+        let m := sdiv a (get0 j Uj) in
+        if Z.eqb k j then m
+        else match lookup k Uj with
+             | Some u => if Z.ltb j k then ssub (get0 k r) (smul m u) else get0 k r
+             | None => get0 k r
+             end
+    end.
+Proof. exact @elim_step_entries. Qed.
+
+(* with non-vanishing pivots (on the algorithm's own intermediate values) the stored factors satisfy
+   row_i(A) = sum_{t<i} L_it row_t(U) + row_i(U), U is upper triangular with unique columns and non-zero diagonal *)
+Theorem C16_lu_identity : forall rows : list (list (Z * R)), pivots_nonzero 0 rows [] ->
+  exists Ls Us, @lu_factor Rsc rows = (Ls, Us) /\ length Ls = length rows /\ length Us = length rows /\ U_ok 0 Us /\
+    forall n a, nth_error rows n = Some a ->
+      exists Li Ui, nth_error Ls n = Some Li /\ nth_error Us n = Some Ui /\ row_identity a Li Ui (firstn n Us).
+Proof. exact lu_factor_identity. Qed.
+
+Print Assumptions C16_elimination_step_is_row_operation.
+Print Assumptions C16_lu_identity.
